@@ -34,13 +34,76 @@ class Canon(ast.NodeTransformer):
         self.depth = depth
         self.subst_params = subst_params or {}
         self._active: set = set()
+        self._shadow: frozenset = frozenset()
+
+    _COMPS = (ast.ListComp, ast.SetComp, ast.DictComp, ast.GeneratorExp)
+
+    def _enclosing_bound(self, e: ast.AST) -> frozenset:
+        """Names that an enclosing comprehension / lambda binds at the position of `e` (they shadow the function's
+        parameters and locals of the same name)."""
+        parents = self.I.prog.parents
+        bound: set[str] = set()
+        cur, prev = parents.get(e), e
+        steps = 0
+        while cur is not None and not isinstance(cur, (ast.FunctionDef, ast.AsyncFunctionDef, ast.ClassDef, ast.Module)) and steps < 200:
+            steps += 1
+            if isinstance(cur, ast.Lambda) and prev is cur.body:
+                a = cur.args
+                bound |= {x.arg for x in a.posonlyargs + a.args + a.kwonlyargs} | ({a.vararg.arg} if a.vararg else set()) | ({a.kwarg.arg} if a.kwarg else set())
+            if isinstance(cur, ast.comprehension):
+                comp = parents.get(cur)
+                if isinstance(comp, self._COMPS):
+                    i = comp.generators.index(cur)
+                    # the iterable of generator i sees the targets of generators 0..i-1; its conditions also its own
+                    upto = i if prev is cur.iter else i + 1
+                    for g in comp.generators[:upto]:
+                        bound |= {x.id for x in ast.walk(g.target) if isinstance(x, ast.Name)}
+                    prev, cur = comp, parents.get(comp)
+                    continue
+            if isinstance(cur, self._COMPS) and prev not in cur.generators:
+                for g in cur.generators:
+                    bound |= {x.id for x in ast.walk(g.target) if isinstance(x, ast.Name)}
+            prev, cur = cur, parents.get(cur)
+        return frozenset(bound)
 
     def canon(self, e: ast.AST) -> str:
-        t = self.visit(copy.deepcopy(e))
-        return norm(t)
+        return norm(self.tree(e))
 
     def tree(self, e: ast.AST) -> ast.AST:
-        return self.visit(copy.deepcopy(e))
+        outer = getattr(self, "_shadow", frozenset())
+        self._shadow = outer | self._enclosing_bound(e)
+        try:
+            return self.visit(copy.deepcopy(e))
+        finally:
+            self._shadow = outer
+
+    def _visit_comp(self, node):
+        outer = getattr(self, "_shadow", frozenset())
+        try:
+            for i, g in enumerate(node.generators):
+                g.iter = self.visit(g.iter)
+                self._shadow = self._shadow | {x.id for x in ast.walk(g.target) if isinstance(x, ast.Name)}
+                g.ifs = [self.visit(x) for x in g.ifs]
+            if isinstance(node, ast.DictComp):
+                node.key = self.visit(node.key)
+                node.value = self.visit(node.value)
+            else:
+                node.elt = self.visit(node.elt)
+            return node
+        finally:
+            self._shadow = outer
+
+    visit_ListComp = visit_SetComp = visit_DictComp = visit_GeneratorExp = _visit_comp
+
+    def visit_Lambda(self, node: ast.Lambda):
+        outer = getattr(self, "_shadow", frozenset())
+        a = node.args
+        self._shadow = outer | {x.arg for x in a.posonlyargs + a.args + a.kwonlyargs} | ({a.vararg.arg} if a.vararg else set()) | ({a.kwarg.arg} if a.kwarg else set())
+        try:
+            node.body = self.visit(node.body)
+            return node
+        finally:
+            self._shadow = outer
 
     def visit_Await(self, node: ast.Await):
         return self.visit(node.value)
@@ -68,6 +131,8 @@ class Canon(ast.NodeTransformer):
     def visit_Name(self, node: ast.Name):
         if not isinstance(node.ctx, ast.Load):
             return node
+        if node.id in getattr(self, "_shadow", ()):
+            return node  # bound by an enclosing comprehension / lambda: not the function's variable of that name
         if node.id == self.msg:
             return ast.Name(id="In", ctx=ast.Load())
         if node.id in self.subst_params:
@@ -279,6 +344,8 @@ def truth3(cn: Canon, e: ast.expr, assume: dict[str, bool]) -> bool | None:
     if isinstance(e, ast.Compare) and len(e.ops) == 1 and isinstance(e.ops[0], (ast.Eq, ast.NotEq, ast.Is, ast.IsNot)):
         a, b = cn.canon(e.left), cn.canon(e.comparators[0])
         neg = isinstance(e.ops[0], (ast.NotEq, ast.IsNot))
+        if isinstance(e.ops[0], (ast.Is, ast.IsNot)) and not ({a, b} & {"None", "True", "False"}):
+            return None  # identity of non-singletons is not equality: undecided
         for k in (f"{a} == {b}", f"{b} == {a}"):
             if k in assume:
                 return assume[k] != neg
